@@ -14,6 +14,8 @@ One driver process = a sequence of *journal processes* on one database file:
   jrn.rec K <in|out> B B                   recover_messages; bound B = n<int> | x<utf8 hex>
   jrn.rec1 K <in|out> B                    recover_msg
   jrn.getall <-|[]|k,k,…> <-|in|out>       get_all_msgs
+  jrn.save / jrn.load     remember / restore the whole connection state (one slot): a long prefix is run once
+  jrn.digest              get_all_msgs() as `g <count> <checksum>` (large journals)
   jrn.calls               execute()/commit() calls made by the current process so far
   jrn.findseq xMSG        Journaler.find_seq_no
   jrn.textval xTEXT       how SQLite compares that text parameter with the INTEGER column
@@ -27,6 +29,7 @@ structure St where
   fuel : Option Nat := none
   dead : Bool := true
   calls : Nat := 0
+  saved : Conn := {}
 
 def kindStr : Kind → String
   | .fixMessage => "FIXMessage" | .duplicateSeqNo => "DuplicateSeqNo" | .assertion => "Assertion"
@@ -52,16 +55,26 @@ def resStr : Res → String
 
 def bigFuel : Nat := 1000000000
 
-def runOp (st : St) (p : Prog Res) : St × String :=
+/-- order-independent checksum of the rows of get_all_msgs (same arithmetic in harness/c08.py) -/
+def digestMod : Int := 2305843009213693951
+def rowDigest (r : Int × Bytes × Int × Int) : Int :=
+  (r.1 * 1000003 + r.2.2.1 * 7 + r.2.2.2 * 13 + (r.2.1.length : Int) * 17 + ((r.2.1.foldl (· + ·) 0 : Nat) : Int)) % digestMod
+def digestStr : Res → String
+  | .rows rs => s!"g {rs.length} {(rs.foldl (fun a r => (a + rowDigest r) % digestMod) 0)}"
+  | r => resStr r
+
+def runOpWith (fmt : Res → String) (st : St) (p : Prog Res) : St × String :=
   if st.dead then (st, "dead")
   else
     let f := st.fuel.getD bigFuel
     match p.run f st.conn with
     | (c, f', some r) =>
       ({ st with conn := c, fuel := st.fuel.map fun _ => f', calls := st.calls + (f - f') },
-        resStr r ++ (if c.inTx then " tx=1" else " tx=0"))
+        fmt r ++ (if c.inTx then " tx=1" else " tx=0"))
     | (c, f', none) =>
       ({ st with conn := c, fuel := some 0, dead := true, calls := st.calls + (f - f') }, "dead")
+
+def runOp (st : St) (p : Prog Res) : St × String := runOpWith resStr st p
 
 def tokFuel (t : String) : Option (Option Nat) :=
   if t == "-" then some none else t.toNat?.map some
@@ -96,11 +109,11 @@ def handle (st : St) (cmd : String) (args : List String) : St × String :=
   match cmd, args with
   | "start", [f] =>
     match tokFuel f with
-    | some fuel => runOp { conn := connect {}, fuel := fuel, dead := false, calls := 0 } openP
+    | some fuel => runOp { st with conn := connect {}, fuel := fuel, dead := false, calls := 0 } openP
     | none => (st, "bad-op")
   | "restart", [f] =>
     match tokFuel f with
-    | some fuel => runOp { conn := st.conn.crash, fuel := fuel, dead := false, calls := 0 } openP
+    | some fuel => runOp { st with conn := st.conn.crash, fuel := fuel, dead := false, calls := 0 } openP
     | none => (st, "bad-op")
   | "col", [t, s] =>
     match Driver.tokStr t, Driver.tokStr s with
@@ -127,6 +140,9 @@ def handle (st : St) (cmd : String) (args : List String) : St × String :=
     match tokKeys ks, tokOptDir d with
     | some ks, some d => runOp st (Op.getAll ks d).prog
     | _, _ => (st, "bad-op")
+  | "save", [] => ({ st with saved := st.conn }, "ok")
+  | "load", [] => ({ st with conn := st.saved, fuel := none, dead := false, calls := 0 }, "ok")
+  | "digest", [] => runOpWith digestStr st (Op.getAll none none).prog
   | "calls", [] => (st, toString st.calls)
   | "findseq", [m] =>
     match Driver.tokBytes m with
